@@ -1,0 +1,695 @@
+//go:build verif
+
+// Contracts of the scalar multiplications of this twisted-Edwards curve (comment-only; installed by /verif/gcv
+// gen-contracts). Module layer (see the zz_verif_contracts_scalarmul.go of the enclosing curve for the conventions):
+// the point types are elements of an abstract abelian group, Add / Double / Neg / Set / FromAffine / FromExtended
+// are the group operations their names state (their coordinate formulas are the subject of C02) and setInfinity
+// yields the neutral element. The double-and-add loop over the 64 bits of each word of |scalar| is cut after the
+// extraction of every bit; lewords(w, i) is the little-endian value of the words w[i:].
+
+package twistededwards
+
+//@ func PointProj.scalarMulWindowed
+//@ layer module PointProj bigint big.Int
+//@ smt (define-fun-rec big.fromwords ((a (Array Int Int)) (lo Int) (hi Int)) Int (ite (>= lo hi) 0 (+ (select a lo) (* 18446744073709551616 (big.fromwords a (+ lo 1) hi)))))
+//@ ghost r0 = 0
+//@ loop 0
+//@ + invariant[words] -1 <= i && i < len(sWords) && resProj == lewords(sWords, i + 1) * *p
+//@ + ghost-post r0 = resProj
+//@ cut after def kthBit #1
+//@ + lemma divsplit(ithWord, 9223372036854775808, 2)
+//@ + invariant[bit1] 0 <= i && i < len(sWords) && ithWord == sWords[i] && resProj == 2*r0 + 2*(ithWord/18446744073709551616) * *p
+//@ + havoc resProj
+//@ + forget
+//@ cut after def kthBit #2
+//@ + lemma divsplit(ithWord, 4611686018427387904, 2)
+//@ + invariant[bit2] 0 <= i && i < len(sWords) && ithWord == sWords[i] && resProj == 4*r0 + 2*(ithWord/9223372036854775808) * *p
+//@ + havoc resProj
+//@ + forget
+//@ cut after def kthBit #3
+//@ + lemma divsplit(ithWord, 2305843009213693952, 2)
+//@ + invariant[bit3] 0 <= i && i < len(sWords) && ithWord == sWords[i] && resProj == 8*r0 + 2*(ithWord/4611686018427387904) * *p
+//@ + havoc resProj
+//@ + forget
+//@ cut after def kthBit #4
+//@ + lemma divsplit(ithWord, 1152921504606846976, 2)
+//@ + invariant[bit4] 0 <= i && i < len(sWords) && ithWord == sWords[i] && resProj == 16*r0 + 2*(ithWord/2305843009213693952) * *p
+//@ + havoc resProj
+//@ + forget
+//@ cut after def kthBit #5
+//@ + lemma divsplit(ithWord, 576460752303423488, 2)
+//@ + invariant[bit5] 0 <= i && i < len(sWords) && ithWord == sWords[i] && resProj == 32*r0 + 2*(ithWord/1152921504606846976) * *p
+//@ + havoc resProj
+//@ + forget
+//@ cut after def kthBit #6
+//@ + lemma divsplit(ithWord, 288230376151711744, 2)
+//@ + invariant[bit6] 0 <= i && i < len(sWords) && ithWord == sWords[i] && resProj == 64*r0 + 2*(ithWord/576460752303423488) * *p
+//@ + havoc resProj
+//@ + forget
+//@ cut after def kthBit #7
+//@ + lemma divsplit(ithWord, 144115188075855872, 2)
+//@ + invariant[bit7] 0 <= i && i < len(sWords) && ithWord == sWords[i] && resProj == 128*r0 + 2*(ithWord/288230376151711744) * *p
+//@ + havoc resProj
+//@ + forget
+//@ cut after def kthBit #8
+//@ + lemma divsplit(ithWord, 72057594037927936, 2)
+//@ + invariant[bit8] 0 <= i && i < len(sWords) && ithWord == sWords[i] && resProj == 256*r0 + 2*(ithWord/144115188075855872) * *p
+//@ + havoc resProj
+//@ + forget
+//@ cut after def kthBit #9
+//@ + lemma divsplit(ithWord, 36028797018963968, 2)
+//@ + invariant[bit9] 0 <= i && i < len(sWords) && ithWord == sWords[i] && resProj == 512*r0 + 2*(ithWord/72057594037927936) * *p
+//@ + havoc resProj
+//@ + forget
+//@ cut after def kthBit #10
+//@ + lemma divsplit(ithWord, 18014398509481984, 2)
+//@ + invariant[bit10] 0 <= i && i < len(sWords) && ithWord == sWords[i] && resProj == 1024*r0 + 2*(ithWord/36028797018963968) * *p
+//@ + havoc resProj
+//@ + forget
+//@ cut after def kthBit #11
+//@ + lemma divsplit(ithWord, 9007199254740992, 2)
+//@ + invariant[bit11] 0 <= i && i < len(sWords) && ithWord == sWords[i] && resProj == 2048*r0 + 2*(ithWord/18014398509481984) * *p
+//@ + havoc resProj
+//@ + forget
+//@ cut after def kthBit #12
+//@ + lemma divsplit(ithWord, 4503599627370496, 2)
+//@ + invariant[bit12] 0 <= i && i < len(sWords) && ithWord == sWords[i] && resProj == 4096*r0 + 2*(ithWord/9007199254740992) * *p
+//@ + havoc resProj
+//@ + forget
+//@ cut after def kthBit #13
+//@ + lemma divsplit(ithWord, 2251799813685248, 2)
+//@ + invariant[bit13] 0 <= i && i < len(sWords) && ithWord == sWords[i] && resProj == 8192*r0 + 2*(ithWord/4503599627370496) * *p
+//@ + havoc resProj
+//@ + forget
+//@ cut after def kthBit #14
+//@ + lemma divsplit(ithWord, 1125899906842624, 2)
+//@ + invariant[bit14] 0 <= i && i < len(sWords) && ithWord == sWords[i] && resProj == 16384*r0 + 2*(ithWord/2251799813685248) * *p
+//@ + havoc resProj
+//@ + forget
+//@ cut after def kthBit #15
+//@ + lemma divsplit(ithWord, 562949953421312, 2)
+//@ + invariant[bit15] 0 <= i && i < len(sWords) && ithWord == sWords[i] && resProj == 32768*r0 + 2*(ithWord/1125899906842624) * *p
+//@ + havoc resProj
+//@ + forget
+//@ cut after def kthBit #16
+//@ + lemma divsplit(ithWord, 281474976710656, 2)
+//@ + invariant[bit16] 0 <= i && i < len(sWords) && ithWord == sWords[i] && resProj == 65536*r0 + 2*(ithWord/562949953421312) * *p
+//@ + havoc resProj
+//@ + forget
+//@ cut after def kthBit #17
+//@ + lemma divsplit(ithWord, 140737488355328, 2)
+//@ + invariant[bit17] 0 <= i && i < len(sWords) && ithWord == sWords[i] && resProj == 131072*r0 + 2*(ithWord/281474976710656) * *p
+//@ + havoc resProj
+//@ + forget
+//@ cut after def kthBit #18
+//@ + lemma divsplit(ithWord, 70368744177664, 2)
+//@ + invariant[bit18] 0 <= i && i < len(sWords) && ithWord == sWords[i] && resProj == 262144*r0 + 2*(ithWord/140737488355328) * *p
+//@ + havoc resProj
+//@ + forget
+//@ cut after def kthBit #19
+//@ + lemma divsplit(ithWord, 35184372088832, 2)
+//@ + invariant[bit19] 0 <= i && i < len(sWords) && ithWord == sWords[i] && resProj == 524288*r0 + 2*(ithWord/70368744177664) * *p
+//@ + havoc resProj
+//@ + forget
+//@ cut after def kthBit #20
+//@ + lemma divsplit(ithWord, 17592186044416, 2)
+//@ + invariant[bit20] 0 <= i && i < len(sWords) && ithWord == sWords[i] && resProj == 1048576*r0 + 2*(ithWord/35184372088832) * *p
+//@ + havoc resProj
+//@ + forget
+//@ cut after def kthBit #21
+//@ + lemma divsplit(ithWord, 8796093022208, 2)
+//@ + invariant[bit21] 0 <= i && i < len(sWords) && ithWord == sWords[i] && resProj == 2097152*r0 + 2*(ithWord/17592186044416) * *p
+//@ + havoc resProj
+//@ + forget
+//@ cut after def kthBit #22
+//@ + lemma divsplit(ithWord, 4398046511104, 2)
+//@ + invariant[bit22] 0 <= i && i < len(sWords) && ithWord == sWords[i] && resProj == 4194304*r0 + 2*(ithWord/8796093022208) * *p
+//@ + havoc resProj
+//@ + forget
+//@ cut after def kthBit #23
+//@ + lemma divsplit(ithWord, 2199023255552, 2)
+//@ + invariant[bit23] 0 <= i && i < len(sWords) && ithWord == sWords[i] && resProj == 8388608*r0 + 2*(ithWord/4398046511104) * *p
+//@ + havoc resProj
+//@ + forget
+//@ cut after def kthBit #24
+//@ + lemma divsplit(ithWord, 1099511627776, 2)
+//@ + invariant[bit24] 0 <= i && i < len(sWords) && ithWord == sWords[i] && resProj == 16777216*r0 + 2*(ithWord/2199023255552) * *p
+//@ + havoc resProj
+//@ + forget
+//@ cut after def kthBit #25
+//@ + lemma divsplit(ithWord, 549755813888, 2)
+//@ + invariant[bit25] 0 <= i && i < len(sWords) && ithWord == sWords[i] && resProj == 33554432*r0 + 2*(ithWord/1099511627776) * *p
+//@ + havoc resProj
+//@ + forget
+//@ cut after def kthBit #26
+//@ + lemma divsplit(ithWord, 274877906944, 2)
+//@ + invariant[bit26] 0 <= i && i < len(sWords) && ithWord == sWords[i] && resProj == 67108864*r0 + 2*(ithWord/549755813888) * *p
+//@ + havoc resProj
+//@ + forget
+//@ cut after def kthBit #27
+//@ + lemma divsplit(ithWord, 137438953472, 2)
+//@ + invariant[bit27] 0 <= i && i < len(sWords) && ithWord == sWords[i] && resProj == 134217728*r0 + 2*(ithWord/274877906944) * *p
+//@ + havoc resProj
+//@ + forget
+//@ cut after def kthBit #28
+//@ + lemma divsplit(ithWord, 68719476736, 2)
+//@ + invariant[bit28] 0 <= i && i < len(sWords) && ithWord == sWords[i] && resProj == 268435456*r0 + 2*(ithWord/137438953472) * *p
+//@ + havoc resProj
+//@ + forget
+//@ cut after def kthBit #29
+//@ + lemma divsplit(ithWord, 34359738368, 2)
+//@ + invariant[bit29] 0 <= i && i < len(sWords) && ithWord == sWords[i] && resProj == 536870912*r0 + 2*(ithWord/68719476736) * *p
+//@ + havoc resProj
+//@ + forget
+//@ cut after def kthBit #30
+//@ + lemma divsplit(ithWord, 17179869184, 2)
+//@ + invariant[bit30] 0 <= i && i < len(sWords) && ithWord == sWords[i] && resProj == 1073741824*r0 + 2*(ithWord/34359738368) * *p
+//@ + havoc resProj
+//@ + forget
+//@ cut after def kthBit #31
+//@ + lemma divsplit(ithWord, 8589934592, 2)
+//@ + invariant[bit31] 0 <= i && i < len(sWords) && ithWord == sWords[i] && resProj == 2147483648*r0 + 2*(ithWord/17179869184) * *p
+//@ + havoc resProj
+//@ + forget
+//@ cut after def kthBit #32
+//@ + lemma divsplit(ithWord, 4294967296, 2)
+//@ + invariant[bit32] 0 <= i && i < len(sWords) && ithWord == sWords[i] && resProj == 4294967296*r0 + 2*(ithWord/8589934592) * *p
+//@ + havoc resProj
+//@ + forget
+//@ cut after def kthBit #33
+//@ + lemma divsplit(ithWord, 2147483648, 2)
+//@ + invariant[bit33] 0 <= i && i < len(sWords) && ithWord == sWords[i] && resProj == 8589934592*r0 + 2*(ithWord/4294967296) * *p
+//@ + havoc resProj
+//@ + forget
+//@ cut after def kthBit #34
+//@ + lemma divsplit(ithWord, 1073741824, 2)
+//@ + invariant[bit34] 0 <= i && i < len(sWords) && ithWord == sWords[i] && resProj == 17179869184*r0 + 2*(ithWord/2147483648) * *p
+//@ + havoc resProj
+//@ + forget
+//@ cut after def kthBit #35
+//@ + lemma divsplit(ithWord, 536870912, 2)
+//@ + invariant[bit35] 0 <= i && i < len(sWords) && ithWord == sWords[i] && resProj == 34359738368*r0 + 2*(ithWord/1073741824) * *p
+//@ + havoc resProj
+//@ + forget
+//@ cut after def kthBit #36
+//@ + lemma divsplit(ithWord, 268435456, 2)
+//@ + invariant[bit36] 0 <= i && i < len(sWords) && ithWord == sWords[i] && resProj == 68719476736*r0 + 2*(ithWord/536870912) * *p
+//@ + havoc resProj
+//@ + forget
+//@ cut after def kthBit #37
+//@ + lemma divsplit(ithWord, 134217728, 2)
+//@ + invariant[bit37] 0 <= i && i < len(sWords) && ithWord == sWords[i] && resProj == 137438953472*r0 + 2*(ithWord/268435456) * *p
+//@ + havoc resProj
+//@ + forget
+//@ cut after def kthBit #38
+//@ + lemma divsplit(ithWord, 67108864, 2)
+//@ + invariant[bit38] 0 <= i && i < len(sWords) && ithWord == sWords[i] && resProj == 274877906944*r0 + 2*(ithWord/134217728) * *p
+//@ + havoc resProj
+//@ + forget
+//@ cut after def kthBit #39
+//@ + lemma divsplit(ithWord, 33554432, 2)
+//@ + invariant[bit39] 0 <= i && i < len(sWords) && ithWord == sWords[i] && resProj == 549755813888*r0 + 2*(ithWord/67108864) * *p
+//@ + havoc resProj
+//@ + forget
+//@ cut after def kthBit #40
+//@ + lemma divsplit(ithWord, 16777216, 2)
+//@ + invariant[bit40] 0 <= i && i < len(sWords) && ithWord == sWords[i] && resProj == 1099511627776*r0 + 2*(ithWord/33554432) * *p
+//@ + havoc resProj
+//@ + forget
+//@ cut after def kthBit #41
+//@ + lemma divsplit(ithWord, 8388608, 2)
+//@ + invariant[bit41] 0 <= i && i < len(sWords) && ithWord == sWords[i] && resProj == 2199023255552*r0 + 2*(ithWord/16777216) * *p
+//@ + havoc resProj
+//@ + forget
+//@ cut after def kthBit #42
+//@ + lemma divsplit(ithWord, 4194304, 2)
+//@ + invariant[bit42] 0 <= i && i < len(sWords) && ithWord == sWords[i] && resProj == 4398046511104*r0 + 2*(ithWord/8388608) * *p
+//@ + havoc resProj
+//@ + forget
+//@ cut after def kthBit #43
+//@ + lemma divsplit(ithWord, 2097152, 2)
+//@ + invariant[bit43] 0 <= i && i < len(sWords) && ithWord == sWords[i] && resProj == 8796093022208*r0 + 2*(ithWord/4194304) * *p
+//@ + havoc resProj
+//@ + forget
+//@ cut after def kthBit #44
+//@ + lemma divsplit(ithWord, 1048576, 2)
+//@ + invariant[bit44] 0 <= i && i < len(sWords) && ithWord == sWords[i] && resProj == 17592186044416*r0 + 2*(ithWord/2097152) * *p
+//@ + havoc resProj
+//@ + forget
+//@ cut after def kthBit #45
+//@ + lemma divsplit(ithWord, 524288, 2)
+//@ + invariant[bit45] 0 <= i && i < len(sWords) && ithWord == sWords[i] && resProj == 35184372088832*r0 + 2*(ithWord/1048576) * *p
+//@ + havoc resProj
+//@ + forget
+//@ cut after def kthBit #46
+//@ + lemma divsplit(ithWord, 262144, 2)
+//@ + invariant[bit46] 0 <= i && i < len(sWords) && ithWord == sWords[i] && resProj == 70368744177664*r0 + 2*(ithWord/524288) * *p
+//@ + havoc resProj
+//@ + forget
+//@ cut after def kthBit #47
+//@ + lemma divsplit(ithWord, 131072, 2)
+//@ + invariant[bit47] 0 <= i && i < len(sWords) && ithWord == sWords[i] && resProj == 140737488355328*r0 + 2*(ithWord/262144) * *p
+//@ + havoc resProj
+//@ + forget
+//@ cut after def kthBit #48
+//@ + lemma divsplit(ithWord, 65536, 2)
+//@ + invariant[bit48] 0 <= i && i < len(sWords) && ithWord == sWords[i] && resProj == 281474976710656*r0 + 2*(ithWord/131072) * *p
+//@ + havoc resProj
+//@ + forget
+//@ cut after def kthBit #49
+//@ + lemma divsplit(ithWord, 32768, 2)
+//@ + invariant[bit49] 0 <= i && i < len(sWords) && ithWord == sWords[i] && resProj == 562949953421312*r0 + 2*(ithWord/65536) * *p
+//@ + havoc resProj
+//@ + forget
+//@ cut after def kthBit #50
+//@ + lemma divsplit(ithWord, 16384, 2)
+//@ + invariant[bit50] 0 <= i && i < len(sWords) && ithWord == sWords[i] && resProj == 1125899906842624*r0 + 2*(ithWord/32768) * *p
+//@ + havoc resProj
+//@ + forget
+//@ cut after def kthBit #51
+//@ + lemma divsplit(ithWord, 8192, 2)
+//@ + invariant[bit51] 0 <= i && i < len(sWords) && ithWord == sWords[i] && resProj == 2251799813685248*r0 + 2*(ithWord/16384) * *p
+//@ + havoc resProj
+//@ + forget
+//@ cut after def kthBit #52
+//@ + lemma divsplit(ithWord, 4096, 2)
+//@ + invariant[bit52] 0 <= i && i < len(sWords) && ithWord == sWords[i] && resProj == 4503599627370496*r0 + 2*(ithWord/8192) * *p
+//@ + havoc resProj
+//@ + forget
+//@ cut after def kthBit #53
+//@ + lemma divsplit(ithWord, 2048, 2)
+//@ + invariant[bit53] 0 <= i && i < len(sWords) && ithWord == sWords[i] && resProj == 9007199254740992*r0 + 2*(ithWord/4096) * *p
+//@ + havoc resProj
+//@ + forget
+//@ cut after def kthBit #54
+//@ + lemma divsplit(ithWord, 1024, 2)
+//@ + invariant[bit54] 0 <= i && i < len(sWords) && ithWord == sWords[i] && resProj == 18014398509481984*r0 + 2*(ithWord/2048) * *p
+//@ + havoc resProj
+//@ + forget
+//@ cut after def kthBit #55
+//@ + lemma divsplit(ithWord, 512, 2)
+//@ + invariant[bit55] 0 <= i && i < len(sWords) && ithWord == sWords[i] && resProj == 36028797018963968*r0 + 2*(ithWord/1024) * *p
+//@ + havoc resProj
+//@ + forget
+//@ cut after def kthBit #56
+//@ + lemma divsplit(ithWord, 256, 2)
+//@ + invariant[bit56] 0 <= i && i < len(sWords) && ithWord == sWords[i] && resProj == 72057594037927936*r0 + 2*(ithWord/512) * *p
+//@ + havoc resProj
+//@ + forget
+//@ cut after def kthBit #57
+//@ + lemma divsplit(ithWord, 128, 2)
+//@ + invariant[bit57] 0 <= i && i < len(sWords) && ithWord == sWords[i] && resProj == 144115188075855872*r0 + 2*(ithWord/256) * *p
+//@ + havoc resProj
+//@ + forget
+//@ cut after def kthBit #58
+//@ + lemma divsplit(ithWord, 64, 2)
+//@ + invariant[bit58] 0 <= i && i < len(sWords) && ithWord == sWords[i] && resProj == 288230376151711744*r0 + 2*(ithWord/128) * *p
+//@ + havoc resProj
+//@ + forget
+//@ cut after def kthBit #59
+//@ + lemma divsplit(ithWord, 32, 2)
+//@ + invariant[bit59] 0 <= i && i < len(sWords) && ithWord == sWords[i] && resProj == 576460752303423488*r0 + 2*(ithWord/64) * *p
+//@ + havoc resProj
+//@ + forget
+//@ cut after def kthBit #60
+//@ + lemma divsplit(ithWord, 16, 2)
+//@ + invariant[bit60] 0 <= i && i < len(sWords) && ithWord == sWords[i] && resProj == 1152921504606846976*r0 + 2*(ithWord/32) * *p
+//@ + havoc resProj
+//@ + forget
+//@ cut after def kthBit #61
+//@ + lemma divsplit(ithWord, 8, 2)
+//@ + invariant[bit61] 0 <= i && i < len(sWords) && ithWord == sWords[i] && resProj == 2305843009213693952*r0 + 2*(ithWord/16) * *p
+//@ + havoc resProj
+//@ + forget
+//@ cut after def kthBit #62
+//@ + lemma divsplit(ithWord, 4, 2)
+//@ + invariant[bit62] 0 <= i && i < len(sWords) && ithWord == sWords[i] && resProj == 4611686018427387904*r0 + 2*(ithWord/8) * *p
+//@ + havoc resProj
+//@ + forget
+//@ cut after def kthBit #63
+//@ + lemma divsplit(ithWord, 2, 2)
+//@ + invariant[bit63] 0 <= i && i < len(sWords) && ithWord == sWords[i] && resProj == 9223372036854775808*r0 + 2*(ithWord/4) * *p
+//@ + havoc resProj
+//@ + forget
+//@ cut after def kthBit #64
+//@ + lemma divsplit(ithWord, 1, 2)
+//@ + invariant[bit64] 0 <= i && i < len(sWords) && ithWord == sWords[i] && resProj == 18446744073709551616*r0 + 2*(ithWord/2) * *p
+//@ + havoc resProj
+//@ + forget
+//@ ensures[value] *p == *scalar * old(*p1)
+//@ ensures[result] result == p
+//@ modifies p
+//@ end
+
+//@ func PointProj.ScalarMultiplication
+//@ layer module PointProj bigint big.Int
+//@ ensures[value] *p == *scalar * old(*p1)
+//@ ensures[result] result == p
+//@ modifies p
+//@ end
+
+//@ func PointExtended.scalarMulWindowed
+//@ layer module PointExtended bigint big.Int
+//@ smt (define-fun-rec big.fromwords ((a (Array Int Int)) (lo Int) (hi Int)) Int (ite (>= lo hi) 0 (+ (select a lo) (* 18446744073709551616 (big.fromwords a (+ lo 1) hi)))))
+//@ ghost r0 = 0
+//@ loop 0
+//@ + invariant[words] -1 <= i && i < len(sWords) && resExtended == lewords(sWords, i + 1) * *p
+//@ + ghost-post r0 = resExtended
+//@ cut after def kthBit #1
+//@ + lemma divsplit(ithWord, 9223372036854775808, 2)
+//@ + invariant[bit1] 0 <= i && i < len(sWords) && ithWord == sWords[i] && resExtended == 2*r0 + 2*(ithWord/18446744073709551616) * *p
+//@ + havoc resExtended
+//@ + forget
+//@ cut after def kthBit #2
+//@ + lemma divsplit(ithWord, 4611686018427387904, 2)
+//@ + invariant[bit2] 0 <= i && i < len(sWords) && ithWord == sWords[i] && resExtended == 4*r0 + 2*(ithWord/9223372036854775808) * *p
+//@ + havoc resExtended
+//@ + forget
+//@ cut after def kthBit #3
+//@ + lemma divsplit(ithWord, 2305843009213693952, 2)
+//@ + invariant[bit3] 0 <= i && i < len(sWords) && ithWord == sWords[i] && resExtended == 8*r0 + 2*(ithWord/4611686018427387904) * *p
+//@ + havoc resExtended
+//@ + forget
+//@ cut after def kthBit #4
+//@ + lemma divsplit(ithWord, 1152921504606846976, 2)
+//@ + invariant[bit4] 0 <= i && i < len(sWords) && ithWord == sWords[i] && resExtended == 16*r0 + 2*(ithWord/2305843009213693952) * *p
+//@ + havoc resExtended
+//@ + forget
+//@ cut after def kthBit #5
+//@ + lemma divsplit(ithWord, 576460752303423488, 2)
+//@ + invariant[bit5] 0 <= i && i < len(sWords) && ithWord == sWords[i] && resExtended == 32*r0 + 2*(ithWord/1152921504606846976) * *p
+//@ + havoc resExtended
+//@ + forget
+//@ cut after def kthBit #6
+//@ + lemma divsplit(ithWord, 288230376151711744, 2)
+//@ + invariant[bit6] 0 <= i && i < len(sWords) && ithWord == sWords[i] && resExtended == 64*r0 + 2*(ithWord/576460752303423488) * *p
+//@ + havoc resExtended
+//@ + forget
+//@ cut after def kthBit #7
+//@ + lemma divsplit(ithWord, 144115188075855872, 2)
+//@ + invariant[bit7] 0 <= i && i < len(sWords) && ithWord == sWords[i] && resExtended == 128*r0 + 2*(ithWord/288230376151711744) * *p
+//@ + havoc resExtended
+//@ + forget
+//@ cut after def kthBit #8
+//@ + lemma divsplit(ithWord, 72057594037927936, 2)
+//@ + invariant[bit8] 0 <= i && i < len(sWords) && ithWord == sWords[i] && resExtended == 256*r0 + 2*(ithWord/144115188075855872) * *p
+//@ + havoc resExtended
+//@ + forget
+//@ cut after def kthBit #9
+//@ + lemma divsplit(ithWord, 36028797018963968, 2)
+//@ + invariant[bit9] 0 <= i && i < len(sWords) && ithWord == sWords[i] && resExtended == 512*r0 + 2*(ithWord/72057594037927936) * *p
+//@ + havoc resExtended
+//@ + forget
+//@ cut after def kthBit #10
+//@ + lemma divsplit(ithWord, 18014398509481984, 2)
+//@ + invariant[bit10] 0 <= i && i < len(sWords) && ithWord == sWords[i] && resExtended == 1024*r0 + 2*(ithWord/36028797018963968) * *p
+//@ + havoc resExtended
+//@ + forget
+//@ cut after def kthBit #11
+//@ + lemma divsplit(ithWord, 9007199254740992, 2)
+//@ + invariant[bit11] 0 <= i && i < len(sWords) && ithWord == sWords[i] && resExtended == 2048*r0 + 2*(ithWord/18014398509481984) * *p
+//@ + havoc resExtended
+//@ + forget
+//@ cut after def kthBit #12
+//@ + lemma divsplit(ithWord, 4503599627370496, 2)
+//@ + invariant[bit12] 0 <= i && i < len(sWords) && ithWord == sWords[i] && resExtended == 4096*r0 + 2*(ithWord/9007199254740992) * *p
+//@ + havoc resExtended
+//@ + forget
+//@ cut after def kthBit #13
+//@ + lemma divsplit(ithWord, 2251799813685248, 2)
+//@ + invariant[bit13] 0 <= i && i < len(sWords) && ithWord == sWords[i] && resExtended == 8192*r0 + 2*(ithWord/4503599627370496) * *p
+//@ + havoc resExtended
+//@ + forget
+//@ cut after def kthBit #14
+//@ + lemma divsplit(ithWord, 1125899906842624, 2)
+//@ + invariant[bit14] 0 <= i && i < len(sWords) && ithWord == sWords[i] && resExtended == 16384*r0 + 2*(ithWord/2251799813685248) * *p
+//@ + havoc resExtended
+//@ + forget
+//@ cut after def kthBit #15
+//@ + lemma divsplit(ithWord, 562949953421312, 2)
+//@ + invariant[bit15] 0 <= i && i < len(sWords) && ithWord == sWords[i] && resExtended == 32768*r0 + 2*(ithWord/1125899906842624) * *p
+//@ + havoc resExtended
+//@ + forget
+//@ cut after def kthBit #16
+//@ + lemma divsplit(ithWord, 281474976710656, 2)
+//@ + invariant[bit16] 0 <= i && i < len(sWords) && ithWord == sWords[i] && resExtended == 65536*r0 + 2*(ithWord/562949953421312) * *p
+//@ + havoc resExtended
+//@ + forget
+//@ cut after def kthBit #17
+//@ + lemma divsplit(ithWord, 140737488355328, 2)
+//@ + invariant[bit17] 0 <= i && i < len(sWords) && ithWord == sWords[i] && resExtended == 131072*r0 + 2*(ithWord/281474976710656) * *p
+//@ + havoc resExtended
+//@ + forget
+//@ cut after def kthBit #18
+//@ + lemma divsplit(ithWord, 70368744177664, 2)
+//@ + invariant[bit18] 0 <= i && i < len(sWords) && ithWord == sWords[i] && resExtended == 262144*r0 + 2*(ithWord/140737488355328) * *p
+//@ + havoc resExtended
+//@ + forget
+//@ cut after def kthBit #19
+//@ + lemma divsplit(ithWord, 35184372088832, 2)
+//@ + invariant[bit19] 0 <= i && i < len(sWords) && ithWord == sWords[i] && resExtended == 524288*r0 + 2*(ithWord/70368744177664) * *p
+//@ + havoc resExtended
+//@ + forget
+//@ cut after def kthBit #20
+//@ + lemma divsplit(ithWord, 17592186044416, 2)
+//@ + invariant[bit20] 0 <= i && i < len(sWords) && ithWord == sWords[i] && resExtended == 1048576*r0 + 2*(ithWord/35184372088832) * *p
+//@ + havoc resExtended
+//@ + forget
+//@ cut after def kthBit #21
+//@ + lemma divsplit(ithWord, 8796093022208, 2)
+//@ + invariant[bit21] 0 <= i && i < len(sWords) && ithWord == sWords[i] && resExtended == 2097152*r0 + 2*(ithWord/17592186044416) * *p
+//@ + havoc resExtended
+//@ + forget
+//@ cut after def kthBit #22
+//@ + lemma divsplit(ithWord, 4398046511104, 2)
+//@ + invariant[bit22] 0 <= i && i < len(sWords) && ithWord == sWords[i] && resExtended == 4194304*r0 + 2*(ithWord/8796093022208) * *p
+//@ + havoc resExtended
+//@ + forget
+//@ cut after def kthBit #23
+//@ + lemma divsplit(ithWord, 2199023255552, 2)
+//@ + invariant[bit23] 0 <= i && i < len(sWords) && ithWord == sWords[i] && resExtended == 8388608*r0 + 2*(ithWord/4398046511104) * *p
+//@ + havoc resExtended
+//@ + forget
+//@ cut after def kthBit #24
+//@ + lemma divsplit(ithWord, 1099511627776, 2)
+//@ + invariant[bit24] 0 <= i && i < len(sWords) && ithWord == sWords[i] && resExtended == 16777216*r0 + 2*(ithWord/2199023255552) * *p
+//@ + havoc resExtended
+//@ + forget
+//@ cut after def kthBit #25
+//@ + lemma divsplit(ithWord, 549755813888, 2)
+//@ + invariant[bit25] 0 <= i && i < len(sWords) && ithWord == sWords[i] && resExtended == 33554432*r0 + 2*(ithWord/1099511627776) * *p
+//@ + havoc resExtended
+//@ + forget
+//@ cut after def kthBit #26
+//@ + lemma divsplit(ithWord, 274877906944, 2)
+//@ + invariant[bit26] 0 <= i && i < len(sWords) && ithWord == sWords[i] && resExtended == 67108864*r0 + 2*(ithWord/549755813888) * *p
+//@ + havoc resExtended
+//@ + forget
+//@ cut after def kthBit #27
+//@ + lemma divsplit(ithWord, 137438953472, 2)
+//@ + invariant[bit27] 0 <= i && i < len(sWords) && ithWord == sWords[i] && resExtended == 134217728*r0 + 2*(ithWord/274877906944) * *p
+//@ + havoc resExtended
+//@ + forget
+//@ cut after def kthBit #28
+//@ + lemma divsplit(ithWord, 68719476736, 2)
+//@ + invariant[bit28] 0 <= i && i < len(sWords) && ithWord == sWords[i] && resExtended == 268435456*r0 + 2*(ithWord/137438953472) * *p
+//@ + havoc resExtended
+//@ + forget
+//@ cut after def kthBit #29
+//@ + lemma divsplit(ithWord, 34359738368, 2)
+//@ + invariant[bit29] 0 <= i && i < len(sWords) && ithWord == sWords[i] && resExtended == 536870912*r0 + 2*(ithWord/68719476736) * *p
+//@ + havoc resExtended
+//@ + forget
+//@ cut after def kthBit #30
+//@ + lemma divsplit(ithWord, 17179869184, 2)
+//@ + invariant[bit30] 0 <= i && i < len(sWords) && ithWord == sWords[i] && resExtended == 1073741824*r0 + 2*(ithWord/34359738368) * *p
+//@ + havoc resExtended
+//@ + forget
+//@ cut after def kthBit #31
+//@ + lemma divsplit(ithWord, 8589934592, 2)
+//@ + invariant[bit31] 0 <= i && i < len(sWords) && ithWord == sWords[i] && resExtended == 2147483648*r0 + 2*(ithWord/17179869184) * *p
+//@ + havoc resExtended
+//@ + forget
+//@ cut after def kthBit #32
+//@ + lemma divsplit(ithWord, 4294967296, 2)
+//@ + invariant[bit32] 0 <= i && i < len(sWords) && ithWord == sWords[i] && resExtended == 4294967296*r0 + 2*(ithWord/8589934592) * *p
+//@ + havoc resExtended
+//@ + forget
+//@ cut after def kthBit #33
+//@ + lemma divsplit(ithWord, 2147483648, 2)
+//@ + invariant[bit33] 0 <= i && i < len(sWords) && ithWord == sWords[i] && resExtended == 8589934592*r0 + 2*(ithWord/4294967296) * *p
+//@ + havoc resExtended
+//@ + forget
+//@ cut after def kthBit #34
+//@ + lemma divsplit(ithWord, 1073741824, 2)
+//@ + invariant[bit34] 0 <= i && i < len(sWords) && ithWord == sWords[i] && resExtended == 17179869184*r0 + 2*(ithWord/2147483648) * *p
+//@ + havoc resExtended
+//@ + forget
+//@ cut after def kthBit #35
+//@ + lemma divsplit(ithWord, 536870912, 2)
+//@ + invariant[bit35] 0 <= i && i < len(sWords) && ithWord == sWords[i] && resExtended == 34359738368*r0 + 2*(ithWord/1073741824) * *p
+//@ + havoc resExtended
+//@ + forget
+//@ cut after def kthBit #36
+//@ + lemma divsplit(ithWord, 268435456, 2)
+//@ + invariant[bit36] 0 <= i && i < len(sWords) && ithWord == sWords[i] && resExtended == 68719476736*r0 + 2*(ithWord/536870912) * *p
+//@ + havoc resExtended
+//@ + forget
+//@ cut after def kthBit #37
+//@ + lemma divsplit(ithWord, 134217728, 2)
+//@ + invariant[bit37] 0 <= i && i < len(sWords) && ithWord == sWords[i] && resExtended == 137438953472*r0 + 2*(ithWord/268435456) * *p
+//@ + havoc resExtended
+//@ + forget
+//@ cut after def kthBit #38
+//@ + lemma divsplit(ithWord, 67108864, 2)
+//@ + invariant[bit38] 0 <= i && i < len(sWords) && ithWord == sWords[i] && resExtended == 274877906944*r0 + 2*(ithWord/134217728) * *p
+//@ + havoc resExtended
+//@ + forget
+//@ cut after def kthBit #39
+//@ + lemma divsplit(ithWord, 33554432, 2)
+//@ + invariant[bit39] 0 <= i && i < len(sWords) && ithWord == sWords[i] && resExtended == 549755813888*r0 + 2*(ithWord/67108864) * *p
+//@ + havoc resExtended
+//@ + forget
+//@ cut after def kthBit #40
+//@ + lemma divsplit(ithWord, 16777216, 2)
+//@ + invariant[bit40] 0 <= i && i < len(sWords) && ithWord == sWords[i] && resExtended == 1099511627776*r0 + 2*(ithWord/33554432) * *p
+//@ + havoc resExtended
+//@ + forget
+//@ cut after def kthBit #41
+//@ + lemma divsplit(ithWord, 8388608, 2)
+//@ + invariant[bit41] 0 <= i && i < len(sWords) && ithWord == sWords[i] && resExtended == 2199023255552*r0 + 2*(ithWord/16777216) * *p
+//@ + havoc resExtended
+//@ + forget
+//@ cut after def kthBit #42
+//@ + lemma divsplit(ithWord, 4194304, 2)
+//@ + invariant[bit42] 0 <= i && i < len(sWords) && ithWord == sWords[i] && resExtended == 4398046511104*r0 + 2*(ithWord/8388608) * *p
+//@ + havoc resExtended
+//@ + forget
+//@ cut after def kthBit #43
+//@ + lemma divsplit(ithWord, 2097152, 2)
+//@ + invariant[bit43] 0 <= i && i < len(sWords) && ithWord == sWords[i] && resExtended == 8796093022208*r0 + 2*(ithWord/4194304) * *p
+//@ + havoc resExtended
+//@ + forget
+//@ cut after def kthBit #44
+//@ + lemma divsplit(ithWord, 1048576, 2)
+//@ + invariant[bit44] 0 <= i && i < len(sWords) && ithWord == sWords[i] && resExtended == 17592186044416*r0 + 2*(ithWord/2097152) * *p
+//@ + havoc resExtended
+//@ + forget
+//@ cut after def kthBit #45
+//@ + lemma divsplit(ithWord, 524288, 2)
+//@ + invariant[bit45] 0 <= i && i < len(sWords) && ithWord == sWords[i] && resExtended == 35184372088832*r0 + 2*(ithWord/1048576) * *p
+//@ + havoc resExtended
+//@ + forget
+//@ cut after def kthBit #46
+//@ + lemma divsplit(ithWord, 262144, 2)
+//@ + invariant[bit46] 0 <= i && i < len(sWords) && ithWord == sWords[i] && resExtended == 70368744177664*r0 + 2*(ithWord/524288) * *p
+//@ + havoc resExtended
+//@ + forget
+//@ cut after def kthBit #47
+//@ + lemma divsplit(ithWord, 131072, 2)
+//@ + invariant[bit47] 0 <= i && i < len(sWords) && ithWord == sWords[i] && resExtended == 140737488355328*r0 + 2*(ithWord/262144) * *p
+//@ + havoc resExtended
+//@ + forget
+//@ cut after def kthBit #48
+//@ + lemma divsplit(ithWord, 65536, 2)
+//@ + invariant[bit48] 0 <= i && i < len(sWords) && ithWord == sWords[i] && resExtended == 281474976710656*r0 + 2*(ithWord/131072) * *p
+//@ + havoc resExtended
+//@ + forget
+//@ cut after def kthBit #49
+//@ + lemma divsplit(ithWord, 32768, 2)
+//@ + invariant[bit49] 0 <= i && i < len(sWords) && ithWord == sWords[i] && resExtended == 562949953421312*r0 + 2*(ithWord/65536) * *p
+//@ + havoc resExtended
+//@ + forget
+//@ cut after def kthBit #50
+//@ + lemma divsplit(ithWord, 16384, 2)
+//@ + invariant[bit50] 0 <= i && i < len(sWords) && ithWord == sWords[i] && resExtended == 1125899906842624*r0 + 2*(ithWord/32768) * *p
+//@ + havoc resExtended
+//@ + forget
+//@ cut after def kthBit #51
+//@ + lemma divsplit(ithWord, 8192, 2)
+//@ + invariant[bit51] 0 <= i && i < len(sWords) && ithWord == sWords[i] && resExtended == 2251799813685248*r0 + 2*(ithWord/16384) * *p
+//@ + havoc resExtended
+//@ + forget
+//@ cut after def kthBit #52
+//@ + lemma divsplit(ithWord, 4096, 2)
+//@ + invariant[bit52] 0 <= i && i < len(sWords) && ithWord == sWords[i] && resExtended == 4503599627370496*r0 + 2*(ithWord/8192) * *p
+//@ + havoc resExtended
+//@ + forget
+//@ cut after def kthBit #53
+//@ + lemma divsplit(ithWord, 2048, 2)
+//@ + invariant[bit53] 0 <= i && i < len(sWords) && ithWord == sWords[i] && resExtended == 9007199254740992*r0 + 2*(ithWord/4096) * *p
+//@ + havoc resExtended
+//@ + forget
+//@ cut after def kthBit #54
+//@ + lemma divsplit(ithWord, 1024, 2)
+//@ + invariant[bit54] 0 <= i && i < len(sWords) && ithWord == sWords[i] && resExtended == 18014398509481984*r0 + 2*(ithWord/2048) * *p
+//@ + havoc resExtended
+//@ + forget
+//@ cut after def kthBit #55
+//@ + lemma divsplit(ithWord, 512, 2)
+//@ + invariant[bit55] 0 <= i && i < len(sWords) && ithWord == sWords[i] && resExtended == 36028797018963968*r0 + 2*(ithWord/1024) * *p
+//@ + havoc resExtended
+//@ + forget
+//@ cut after def kthBit #56
+//@ + lemma divsplit(ithWord, 256, 2)
+//@ + invariant[bit56] 0 <= i && i < len(sWords) && ithWord == sWords[i] && resExtended == 72057594037927936*r0 + 2*(ithWord/512) * *p
+//@ + havoc resExtended
+//@ + forget
+//@ cut after def kthBit #57
+//@ + lemma divsplit(ithWord, 128, 2)
+//@ + invariant[bit57] 0 <= i && i < len(sWords) && ithWord == sWords[i] && resExtended == 144115188075855872*r0 + 2*(ithWord/256) * *p
+//@ + havoc resExtended
+//@ + forget
+//@ cut after def kthBit #58
+//@ + lemma divsplit(ithWord, 64, 2)
+//@ + invariant[bit58] 0 <= i && i < len(sWords) && ithWord == sWords[i] && resExtended == 288230376151711744*r0 + 2*(ithWord/128) * *p
+//@ + havoc resExtended
+//@ + forget
+//@ cut after def kthBit #59
+//@ + lemma divsplit(ithWord, 32, 2)
+//@ + invariant[bit59] 0 <= i && i < len(sWords) && ithWord == sWords[i] && resExtended == 576460752303423488*r0 + 2*(ithWord/64) * *p
+//@ + havoc resExtended
+//@ + forget
+//@ cut after def kthBit #60
+//@ + lemma divsplit(ithWord, 16, 2)
+//@ + invariant[bit60] 0 <= i && i < len(sWords) && ithWord == sWords[i] && resExtended == 1152921504606846976*r0 + 2*(ithWord/32) * *p
+//@ + havoc resExtended
+//@ + forget
+//@ cut after def kthBit #61
+//@ + lemma divsplit(ithWord, 8, 2)
+//@ + invariant[bit61] 0 <= i && i < len(sWords) && ithWord == sWords[i] && resExtended == 2305843009213693952*r0 + 2*(ithWord/16) * *p
+//@ + havoc resExtended
+//@ + forget
+//@ cut after def kthBit #62
+//@ + lemma divsplit(ithWord, 4, 2)
+//@ + invariant[bit62] 0 <= i && i < len(sWords) && ithWord == sWords[i] && resExtended == 4611686018427387904*r0 + 2*(ithWord/8) * *p
+//@ + havoc resExtended
+//@ + forget
+//@ cut after def kthBit #63
+//@ + lemma divsplit(ithWord, 2, 2)
+//@ + invariant[bit63] 0 <= i && i < len(sWords) && ithWord == sWords[i] && resExtended == 9223372036854775808*r0 + 2*(ithWord/4) * *p
+//@ + havoc resExtended
+//@ + forget
+//@ cut after def kthBit #64
+//@ + lemma divsplit(ithWord, 1, 2)
+//@ + invariant[bit64] 0 <= i && i < len(sWords) && ithWord == sWords[i] && resExtended == 18446744073709551616*r0 + 2*(ithWord/2) * *p
+//@ + havoc resExtended
+//@ + forget
+//@ ensures[value] *p == *scalar * old(*p1)
+//@ ensures[result] result == p
+//@ modifies p
+//@ end
+
+//@ func PointExtended.ScalarMultiplication
+//@ layer module PointExtended bigint big.Int
+//@ ensures[value] *p == *scalar * old(*p1)
+//@ ensures[result] result == p
+//@ modifies p
+//@ end
+
+//@ func PointAffine.ScalarMultiplication
+//@ layer module PointAffine PointExtended PointProj bigint big.Int
+//@ ensures[value] *p == *scalar * old(*p1)
+//@ ensures[result] result == p
+//@ modifies p
+//@ end
